@@ -276,6 +276,18 @@ def teval(e: ast.AST, env: dict, leaf: Optional[Callable] = None, depth: int = 0
             if e.attr in ("device", "dtype"):
                 return f"<{e.attr}>"
         raise NotEvaluable(t[:40])
+    if isinstance(e, ast.JoinedStr):
+        # an f-string (messages): the text is of no consequence for the tables, but the statement must not stop the walk
+        parts = []
+        for v in e.values:
+            if isinstance(v, ast.Constant):
+                parts.append(str(v.value))
+            else:
+                try:
+                    parts.append(str(ev(v.value)))
+                except NotEvaluable:
+                    parts.append("<?>")
+        return "".join(parts)
     if isinstance(e, ast.Subscript):
         base = ev(e.value)
         idx = _index(e.slice, ev)
@@ -714,6 +726,13 @@ def _call_impl(c: ast.Call, ev, t: str):
                 else:
                     idxs[ix + (r_,)] = Fraction(j_)
         return (np.moveaxis(vals, -1, d), np.moveaxis(idxs, -1, d))
+    if m == "repeat_interleave" and len(c.args) == 1 and not c.keywords and x.ndim == 1:
+        r = ev(c.args[0])
+        reps = [_int(r)] * x.shape[0] if not _is_arr(r) else [int(v_) for v_ in np.asarray(r).reshape(-1).tolist()]
+        if len(reps) != x.shape[0] or any(v_ < 0 for v_ in reps):
+            raise ValueError("repeat_interleave repeats")
+        out = [v_ for v_, k_ in zip(_as_exact(x).tolist(), reps) for _ in range(k_)]
+        return frac_array(out) if out else np.empty((0,), dtype=object)
     if m == "permute" and c.args:
         dims = [ev(a_) for a_ in c.args]
         if len(dims) == 1 and isinstance(dims[0], tuple):
